@@ -37,6 +37,7 @@ TIERS = {
     "quick": dict(runs=dict(C03=40000, C04=40000, C05=30000, C08=12000, C12=30000, C17=60000, C18=12000, C19=20000), maxlog=7, maxlog_tree=5, max_copy=5000, gate=200, cap_s=150),
     "thorough": dict(runs=dict(C03=60000, C04=50000, C05=50000, C08=30000, C12=60000, C17=120000, C18=24000, C19=40000), maxlog=10, maxlog_tree=7, max_copy=70000, gate=3000, cap_s=900),
 }
+MAX_EVENTS = 60  # violating runs per flavour that are classified (replayed) individually
 MAX_MINIMISE = 3  # distinct violation signatures that are minimised and written as replay files
 
 
@@ -172,7 +173,7 @@ def run_replay_file(binary, path, record=False, timeout=120):
         p = subprocess.run(cmd, stdout=subprocess.PIPE, stderr=subprocess.PIPE, text=True, timeout=timeout)
     except subprocess.TimeoutExpired:
         return dict(outcome="timeout", result=None, last_op=None, text="")
-    out = dict(outcome="ok", result=None, crash_sig=None, last_op=None, text=p.stderr[-3000:], rc=p.returncode)
+    out = dict(outcome="ok", result=None, crash_sig=None, last_op=None, text=(p.stderr if len(p.stderr) < 4000 else p.stderr[:2000] + "\n...\n" + p.stderr[-2000:]), rc=p.returncode)
     for line in p.stdout.splitlines():
         if line.startswith("O "):
             parts = line.split()
@@ -600,6 +601,7 @@ def main():
     other_props = {}
     handled = {}
     total_viol_runs = 0
+    skipped_events = 0
     for sw in sweeps:
         events = []  # (index, seed, plan or None)
         for i, r in sorted(sw.results.items()):
@@ -608,7 +610,10 @@ def main():
         for (i, s, _x) in sw.crashes + sw.sanitizer + sw.fatals:
             events.append((i, s, None, None))
         events.sort(key=lambda e: e[0])
-        for (i, s, plan, fs) in events:
+        # a badly broken tree violates in thousands of runs: every run counts in the evidence, but only the
+        # first MAX_EVENTS per flavour are classified in fresh processes (signatures repeat quickly)
+        skipped_events += max(0, len(events) - MAX_EVENTS)
+        for (i, s, plan, fs) in events[:MAX_EVENTS]:
             if plan is None:
                 g = subprocess.run(sw.cmd(0)[:1] + ["--gen", "--index", str(i)] + sw.cmd(0)[2:], stdout=subprocess.PIPE, text=True)
                 plan = json.loads(g.stdout)
@@ -665,6 +670,8 @@ def main():
                     if not any(v["path"] == path for v in violations):
                         log("VIOLATION property=%s replay=%s" % (prop, path))
                     violations.append(dict(path=path, cls=ff["cls"], report=small["report"], flavour=sw.flavour, ops=len(small["plan"])))
+    if skipped_events:
+        log("NOTE: %d further violating runs were not classified individually" % skipped_events)
     for p_, clss in sorted(other_props.items()):
         log("NOTE: runs of this sweep also showed findings that belong to %s (%s); they are reported by that property's check" % (p_, ", ".join(sorted(clss))))
 
